@@ -1414,10 +1414,19 @@ ws_http_cb_dialer(nni_ws *ws, nni_aio *aio)
 		}
 	}
 
-	// At this point, we are in business!
+	// At this point, we are in business!  (Unless the user's aio was
+	// cancelled meanwhile: ws_dial_cancel completes it under ws->mtx.)
+	nni_mtx_lock(&ws->mtx);
+	if (ws->useraio != uaio) {
+		nni_mtx_unlock(&ws->mtx);
+		uaio = NULL;
+		rv   = NNG_ECANCELED;
+		goto err;
+	}
+	ws->useraio = NULL;
+	nni_mtx_unlock(&ws->mtx);
 	nni_list_remove(&d->wspend, ws);
 	ws->ready   = true;
-	ws->useraio = NULL;
 	ws->dialer  = NULL;
 	nni_aio_set_output(uaio, 0, ws);
 	nni_aio_finish(uaio, 0, 0);
@@ -1428,8 +1437,14 @@ ws_http_cb_dialer(nni_ws *ws, nni_aio *aio)
 	return;
 err:
 	nni_list_remove(&d->wspend, ws);
+	// only one of us and ws_dial_cancel may complete the user's aio
+	nni_mtx_lock(&ws->mtx);
+	if (ws->useraio != uaio) {
+		uaio = NULL;
+	}
 	ws->useraio = NULL;
-	ws->dialer  = NULL;
+	nni_mtx_unlock(&ws->mtx);
+	ws->dialer = NULL;
 	if (nni_list_empty(&d->wspend)) {
 		nni_cv_wake(&d->cv);
 	}
